@@ -285,10 +285,11 @@ def write_replay(prop, payload):
 def write_evidence(prop, tier, seed, t0, coverage, assumptions_note, violations):
     ev = {"property_id": prop, "tier": tier, "seed": seed, "level": "proof", "coverage": jsonable(coverage),
           "assumptions": assumptions_note, "wall_s": round(time.time() - t0, 2), "violations": violations}
-    os.makedirs(os.path.join(ROOT, "evidence"), exist_ok=True)
-    tmp = os.path.join(ROOT, "evidence", prop + ".json.tmp")
+    d = os.environ.get("VERIF_EVIDENCE_DIR") or os.path.join(ROOT, "evidence")     # seeding tools point this elsewhere: evidence/ describes the unchanged tree
+    os.makedirs(d, exist_ok=True)
+    tmp = os.path.join(d, prop + ".json.tmp")
     json.dump(ev, open(tmp, "w"), indent=1, sort_keys=True)
-    os.replace(tmp, os.path.join(ROOT, "evidence", prop + ".json"))
+    os.replace(tmp, os.path.join(d, prop + ".json"))
 
 
 def load_corpus(prop):
